@@ -205,9 +205,14 @@ def stripSp : Bytes → Bytes
   | 32 :: v => v
   | v => v
 
-/-- `try: value = int(value)` / `except ValueError: pass` / `else: self.retry = value` -/
+/-- `float(i)` does not raise OverflowError: `i` rounds (half to even) to a finite double -/
+def floatOk (i : Int) : Bool := (i.natAbs >>> 970) < 18014398509481983
+  -- |i| < 2^1024 - 2^970 = (2^54 - 1) * 2^970, the first integer that rounds to 2^1024
+
+/-- `try: value = int(value); float(value)` / `except (ValueError, OverflowError): pass` /
+`else: self.retry = value` (as repaired by fixes/D32g: a retry that cannot be a duration is ignored) -/
 def setRetry (ev : Ev) : IntParse → Ev
-  | .ok i => { ev with retry := some i }
+  | .ok i => if floatOk i then { ev with retry := some i } else ev
   | .bad => ev
   | .outside => { ev with status := .unmodelled }
 
